@@ -312,7 +312,7 @@ def configs_for(prop, tier):
     if prop == "C05":
         base = [
             dict(name="lists-r2-l3", maxrefs=2, maxlen=3, ops=["NewList", "NewList2", "NewListOf"] + LIST_MUT + LIST_DER + ["Delete2", "Add2"],
-                 conc=["plain", "extreme", "long"], depth=3, walks=6000, walklen=40),
+                 conc=["plain", "extreme", "long", "bounds"], depth=3, walks=6000, walklen=40),
             dict(name="nest-r3-l1", maxrefs=3, maxlen=1, nkeys=1, ops=["NewList", "NewListOf", "NewObject"] + LIST_MUT + LIST_DER,
                  arglits=[1], conc=["weird"], depth=3, walks=6000),
             # two values of one kind: Sort / Reverse histories change the order
